@@ -10,9 +10,19 @@ def classify_crash(cr):
         if len(t) > 1:
             comp = t[1]
     err = cr.get('stderr_tail') or ''
-    if comp is None:       # the `#in` line scrolled out of the context window: take the outermost library frame
-        comp = 'SARSOP' if 'SARSOP::' in err else 'GapMin' if 'GapMin::' in err else 'C03'
+    # a report that names the solver class decides (the `#in` line can scroll out of the context window or belong to a neighbouring case)
+    if 'SARSOP::' in err:
+        comp = 'SARSOP'
+    elif 'GapMin::' in err:
+        comp = 'GapMin'
+    elif comp is None:
+        comp = 'C03'
     kind = cr['kind']
+    if kind == 'escaped-exception':      # an exception the library threw on a valid input; the `#escaped` line carries what()
+        d = cr.get('detail') or ''
+        if 'UB process failed' in d:
+            return ('GapMin', 'exception_lp_failed_in_LPInterpolation')
+        return (comp if comp != 'C03' else 'C03', 'escaped_exception')
     if kind == 'hang':
         return (comp, 'hang')
     where = ''
@@ -70,6 +80,7 @@ SPEC = {
         'AITB.POMDP3.backupNode_lower_reach', 'AITB.POMDP3.backupNode_pool_reach', 'AITB.POMDP3.backupNode_write_reach', 'AITB.POMDP3.backupNode_sound',
         'AITB.POMDP3.sawVal_sound', 'AITB.POMDP3.sumSaw_upper', 'AITB.POMDP3.promisingActSaw_upper', 'AITB.POMDP3.maxSaw_ge', 'AITB.POMDP3.bestPromisingSaw_upper',
         'AITB.POMDP3.sosa_row_reconstructs', 'AITB.POMDP3.gapmin_select_reach', 'AITB.POMDP3.gapmin_round_sound',
+        'AITB.POMDP3.pbvi_warm_sound', 'AITB.POMDP3.pbvi_warm_value',
         'AITB.POMDP3.iterHV_eq', 'AITB.POMDP3.upperRefV_eq', 'AITB.POMDP3.lowerRefV_eq',
         'AITB.POMDP3.mW_valid', 'AITB.POMDP3.mW_ref_superSol', 'AITB.POMDP3.ΓW_sound',
     ],
